@@ -220,11 +220,14 @@ inline void ReadOptional(CodedInputStream& stream, std::optional<T>& value) {
   }
 }
 
-template <typename T, Writer<T> WriteElement>
+// BulkCopy = false makes a container call the element serializer for every element even if T is
+// trivially serializable: the element serializers generated for a previous schema version convert
+// each element and must not be bypassed.
+template <typename T, Writer<T> WriteElement, bool BulkCopy = true>
 inline void WriteVector(CodedOutputStream& stream, std::vector<T> const& value) {
   WriteInteger(stream, value.size());
 
-  if constexpr (IsTriviallySerializable<T>::value) {
+  if constexpr (BulkCopy && IsTriviallySerializable<T>::value) {
     stream.WriteBytes(value.data(), value.size() * sizeof(T));
     return;
   }
@@ -234,13 +237,13 @@ inline void WriteVector(CodedOutputStream& stream, std::vector<T> const& value) 
   }
 }
 
-template <typename T, Reader<T> ReadElement>
+template <typename T, Reader<T> ReadElement, bool BulkCopy = true>
 inline void ReadVector(CodedInputStream& stream, std::vector<T>& value) {
   uint64_t size;
   ReadInteger(stream, size);
   value.resize(size);
 
-  if constexpr (IsTriviallySerializable<T>::value) {
+  if constexpr (BulkCopy && IsTriviallySerializable<T>::value) {
     stream.ReadBytes(value.data(), value.size() * sizeof(T));
     return;
   }
@@ -250,9 +253,9 @@ inline void ReadVector(CodedInputStream& stream, std::vector<T>& value) {
   }
 }
 
-template <typename T, Writer<T> WriteElement, size_t N>
+template <typename T, Writer<T> WriteElement, size_t N, bool BulkCopy = true>
 inline void WriteArray(CodedOutputStream& stream, std::array<T, N> const& value) {
-  if constexpr (IsTriviallySerializable<T>::value) {
+  if constexpr (BulkCopy && IsTriviallySerializable<T>::value) {
     stream.WriteBytes(value.data(), value.size() * sizeof(T));
     return;
   }
@@ -262,9 +265,9 @@ inline void WriteArray(CodedOutputStream& stream, std::array<T, N> const& value)
   }
 }
 
-template <typename T, Reader<T> ReadElement, size_t N>
+template <typename T, Reader<T> ReadElement, size_t N, bool BulkCopy = true>
 inline void ReadArray(CodedInputStream& stream, std::array<T, N>& value) {
-  if constexpr (IsTriviallySerializable<T>::value) {
+  if constexpr (BulkCopy && IsTriviallySerializable<T>::value) {
     stream.ReadBytes(value.data(), value.size() * sizeof(T));
     return;
   }
@@ -274,7 +277,7 @@ inline void ReadArray(CodedInputStream& stream, std::array<T, N>& value) {
   }
 }
 
-template <typename T, Writer<T> WriteElement>
+template <typename T, Writer<T> WriteElement, bool BulkCopy = true>
 inline void WriteDynamicNDArray(CodedOutputStream& stream, yardl::DynamicNDArray<T> const& value) {
   auto shape = yardl::shape(value);
   WriteInteger(stream, shape.size());
@@ -282,7 +285,7 @@ inline void WriteDynamicNDArray(CodedOutputStream& stream, yardl::DynamicNDArray
     WriteInteger(stream, dim);
   }
 
-  if constexpr (IsTriviallySerializable<T>::value) {
+  if constexpr (BulkCopy && IsTriviallySerializable<T>::value) {
     stream.WriteBytes(yardl::dataptr(value), yardl::size(value) * sizeof(T));
     return;
   }
@@ -292,13 +295,13 @@ inline void WriteDynamicNDArray(CodedOutputStream& stream, yardl::DynamicNDArray
   }
 }
 
-template <typename T, Reader<T> ReadElement>
+template <typename T, Reader<T> ReadElement, bool BulkCopy = true>
 inline void ReadDynamicNDArray(CodedInputStream& stream, yardl::DynamicNDArray<T>& value) {
   std::vector<size_t> shape;
   ReadVector<size_t, &ReadInteger>(stream, shape);
   yardl::resize(value, shape);
 
-  if constexpr (IsTriviallySerializable<T>::value) {
+  if constexpr (BulkCopy && IsTriviallySerializable<T>::value) {
     stream.ReadBytes(yardl::dataptr(value), yardl::size(value) * sizeof(T));
     return;
   }
@@ -308,13 +311,13 @@ inline void ReadDynamicNDArray(CodedInputStream& stream, yardl::DynamicNDArray<T
   }
 }
 
-template <typename T, Writer<T> WriteElement, size_t N>
+template <typename T, Writer<T> WriteElement, size_t N, bool BulkCopy = true>
 inline void WriteNDArray(CodedOutputStream& stream, yardl::NDArray<T, N> const& value) {
   for (auto const& dim : yardl::shape(value)) {
     WriteInteger(stream, dim);
   }
 
-  if constexpr (IsTriviallySerializable<T>::value) {
+  if constexpr (BulkCopy && IsTriviallySerializable<T>::value) {
     stream.WriteBytes(yardl::dataptr(value), yardl::size(value) * sizeof(T));
     return;
   }
@@ -324,13 +327,38 @@ inline void WriteNDArray(CodedOutputStream& stream, yardl::NDArray<T, N> const& 
   }
 }
 
-template <typename T, Reader<T> ReadElement, size_t N>
+template <typename T, Reader<T> ReadElement, size_t N, bool BulkCopy = true>
 inline void ReadNDArray(CodedInputStream& stream, yardl::NDArray<T, N>& value) {
   std::array<size_t, N> shape;
   ReadArray<size_t, &ReadInteger, N>(stream, shape);
   yardl::resize(value, shape);
 
-  if constexpr (IsTriviallySerializable<T>::value) {
+  if constexpr (BulkCopy && IsTriviallySerializable<T>::value) {
+    stream.ReadBytes(yardl::dataptr(value), yardl::size(value) * sizeof(T));
+    return;
+  }
+
+  for (auto& element : value) {
+    ReadElement(stream, element);
+  }
+}
+
+template <typename T, Writer<T> WriteElement, bool BulkCopy, size_t... Dims>
+inline void WriteFixedNDArrayImpl(CodedOutputStream& stream,
+                                  yardl::FixedNDArray<T, Dims...> const& value) {
+  if constexpr (BulkCopy && IsTriviallySerializable<T>::value) {
+    stream.WriteBytes(yardl::dataptr(value), yardl::size(value) * sizeof(T));
+    return;
+  }
+
+  for (auto const& element : value) {
+    WriteElement(stream, element);
+  }
+}
+
+template <typename T, Reader<T> ReadElement, bool BulkCopy, size_t... Dims>
+inline void ReadFixedNDArrayImpl(CodedInputStream& stream, yardl::FixedNDArray<T, Dims...>& value) {
+  if constexpr (BulkCopy && IsTriviallySerializable<T>::value) {
     stream.ReadBytes(yardl::dataptr(value), yardl::size(value) * sizeof(T));
     return;
   }
@@ -343,26 +371,24 @@ inline void ReadNDArray(CodedInputStream& stream, yardl::NDArray<T, N>& value) {
 template <typename T, Writer<T> WriteElement, size_t... Dims>
 inline void WriteFixedNDArray(CodedOutputStream& stream,
                               yardl::FixedNDArray<T, Dims...> const& value) {
-  if constexpr (IsTriviallySerializable<T>::value) {
-    stream.WriteBytes(yardl::dataptr(value), yardl::size(value) * sizeof(T));
-    return;
-  }
-
-  for (auto const& element : value) {
-    WriteElement(stream, element);
-  }
+  WriteFixedNDArrayImpl<T, WriteElement, true, Dims...>(stream, value);
 }
 
 template <typename T, Reader<T> ReadElement, size_t... Dims>
 inline void ReadFixedNDArray(CodedInputStream& stream, yardl::FixedNDArray<T, Dims...>& value) {
-  if constexpr (IsTriviallySerializable<T>::value) {
-    stream.ReadBytes(yardl::dataptr(value), yardl::size(value) * sizeof(T));
-    return;
-  }
+  ReadFixedNDArrayImpl<T, ReadElement, true, Dims...>(stream, value);
+}
 
-  for (auto& element : value) {
-    ReadElement(stream, element);
-  }
+// Element by element, whatever the element type (see BulkCopy above).
+template <typename T, Writer<T> WriteElement, size_t... Dims>
+inline void WriteFixedNDArrayElementwise(CodedOutputStream& stream,
+                                         yardl::FixedNDArray<T, Dims...> const& value) {
+  WriteFixedNDArrayImpl<T, WriteElement, false, Dims...>(stream, value);
+}
+
+template <typename T, Reader<T> ReadElement, size_t... Dims>
+inline void ReadFixedNDArrayElementwise(CodedInputStream& stream, yardl::FixedNDArray<T, Dims...>& value) {
+  ReadFixedNDArrayImpl<T, ReadElement, false, Dims...>(stream, value);
 }
 
 template <typename TKey, typename TValue, Writer<TKey> WriteKey, Writer<TValue> WriteValue>
@@ -445,7 +471,7 @@ inline bool ReadBlock(CodedInputStream& stream, size_t& current_block_remaining,
   return true;
 }
 
-template <typename T, Reader<T> ReadElement>
+template <typename T, Reader<T> ReadElement, bool BulkCopy = true>
 inline void ReadBlocksIntoVector(CodedInputStream& stream, size_t& current_block_remaining, std::vector<T>& destination) {
   if (current_block_remaining == 0) {
     ReadInteger(stream, current_block_remaining);
@@ -459,7 +485,7 @@ inline void ReadBlocksIntoVector(CodedInputStream& stream, size_t& current_block
       destination.resize(offset + read_count);
     }
 
-    if constexpr (IsTriviallySerializable<T>::value) {
+    if constexpr (BulkCopy && IsTriviallySerializable<T>::value) {
       stream.ReadBytes(destination.data() + offset, read_count * sizeof(T));
     } else {
       for (size_t i = 0; i < read_count; i++) {
